@@ -52,6 +52,17 @@ func fifoShape(c *Ctx, rule string) {
 		return
 	}
 	la := computeLocksets(p)
+	// representation of the queue: a slice (append / [0] / [1:]) or a container/list (PushBack / Front / Remove)
+	if qn := p.Named("vnet", "chunkQueue"); qn != nil {
+		if st, ok := qn.Underlying().(*types.Struct); ok {
+			for i := 0; i < st.NumFields(); i++ {
+				if st.Field(i).Type().String() == "*container/list.List" {
+					fifoShapeList(c, o, st.Field(i).Name(), push, pop, peek, la)
+					return
+				}
+			}
+		}
+	}
 	// push: the only store to chunks is append(load chunks, param)
 	nSt := 0
 	instrsOfU(push, func(in ssa.Instruction) {
@@ -1156,4 +1167,149 @@ func cappedBy(v ssa.Value, T string) (string, bool) {
 		}
 	}
 	return field, field != ""
+}
+
+// fifoShapeList: the FIFO rules for a queue kept in a container/list: push is PushBack of the argument, peek returns
+// Front().Value, pop returns the value of Remove(Front()); nothing else changes the list.
+func fifoShapeList(c *Ctx, o *Obligation, field string, push, pop, peek *ssa.Function, la *lockAnalysis) {
+	p := c.P
+	const L = "(*container/list.List)."
+	onQueue := func(cl *ssa.Call) bool {
+		return len(cl.Call.Args) > 0 && isFieldLoad(cl.Call.Args[0], "vnet.chunkQueue", field)
+	}
+	listCall := func(in ssa.Instruction, name string) *ssa.Call {
+		cl, ok := in.(*ssa.Call)
+		if ok && callName(cl) == L+name && onQueue(cl) {
+			return cl
+		}
+		return nil
+	}
+	frontOf := func(v ssa.Value) bool {
+		cl, ok := origin(v).(*ssa.Call)
+		return ok && callName(cl) == L+"Front" && onQueue(cl)
+	}
+	// who changes the list
+	for _, f := range p.Funcs {
+		if pkgOf(f) != "vnet" {
+			continue
+		}
+		instrsOf(f, func(in ssa.Instruction) {
+			cl, ok := in.(*ssa.Call)
+			if !ok || !strings.HasPrefix(callName(cl), L) || !onQueue(cl) {
+				return
+			}
+			switch strings.TrimPrefix(callName(cl), L) {
+			case "Len", "Front":
+			case "PushBack":
+				if !isIn(f, push) {
+					o.Fail(in.Pos(), "%s appends to the queue (only push may)", fname(f))
+				}
+			case "Remove":
+				if !isIn(f, pop) {
+					o.Fail(in.Pos(), "%s removes from the queue (only pop may)", fname(f))
+				}
+			default:
+				o.Fail(in.Pos(), "%s calls %s on the queue: the order of the queued chunks is no longer first-in first-out", fname(f), callName(cl))
+			}
+		})
+	}
+	nPush := 0
+	for _, in := range findU(push, func(in ssa.Instruction) bool { return listCall(in, "PushBack") != nil }) {
+		nPush++
+		cl := in.(*ssa.Call)
+		o.Site(in.Pos(), "push: PushBack(%s)", cl.Call.Args[1].Name())
+		if !derivesFrom(cl.Call.Args[1], func(v ssa.Value) bool { return sameOrigin(v, ssa.Value(push.Params[1])) }, false) {
+			o.Fail(in.Pos(), "push does not append its argument at the end of the queue")
+		}
+		if !la.holdsOwner(in, "vnet.chunkQueue", true) {
+			o.Fail(in.Pos(), "push modifies the queue outside its mutex")
+		}
+	}
+	if nPush != 1 {
+		o.Fail(push.Pos(), "expected one PushBack in push, found %d", nPush)
+	}
+	if ok, bad := mustPassU(entryPos(push), func(in ssa.Instruction) bool {
+		ret, ok := in.(*ssa.Return)
+		if !ok {
+			return false
+		}
+		for _, v := range retValAt(ret, 0) {
+			if isConstBool(v, true) {
+				return true
+			}
+		}
+		return false
+	}, func(in ssa.Instruction) bool { return listCall(in, "PushBack") != nil }); !ok {
+		o.Fail(bad.Pos(), "push reports success without having appended the chunk")
+	}
+	// peek: Front().Value
+	for _, v := range returnedValuesU(peek, 0) {
+		if isNilConst(v) {
+			continue
+		}
+		okV := false
+		if x, ok := assertedFrom(v); ok {
+			if fr, ok := asFieldLoad(x); ok && fr.SName == "container/list.Element" && fr.Field == "Value" && frontOf(fr.Base) {
+				okV = true
+			}
+		}
+		o.Site(v.Pos(), "peek returns %s", v.String())
+		if !okV {
+			o.Fail(v.Pos(), "peek does not return the oldest element (Front().Value)")
+		}
+	}
+	for _, in := range findU(peek, func(in ssa.Instruction) bool {
+		cl, ok := in.(*ssa.Call)
+		return ok && strings.HasPrefix(callName(cl), L) && onQueue(cl) && callName(cl) != L+"Front" && callName(cl) != L+"Len"
+	}) {
+		o.Fail(in.Pos(), "peek modifies the queue")
+	}
+	// pop: Remove(Front()) and its value (or Front().Value) is returned
+	nRem := 0
+	for _, in := range findU(pop, func(in ssa.Instruction) bool { return listCall(in, "Remove") != nil }) {
+		nRem++
+		cl := in.(*ssa.Call)
+		o.Site(in.Pos(), "pop: Remove(Front())")
+		if !frontOf(cl.Call.Args[1]) {
+			o.Fail(in.Pos(), "pop does not remove exactly the oldest element (Remove(Front()))")
+		}
+		if !la.holdsOwner(in, "vnet.chunkQueue", true) {
+			o.Fail(in.Pos(), "pop modifies the queue outside its mutex")
+		}
+	}
+	if nRem != 1 {
+		o.Fail(pop.Pos(), "expected one Remove in pop, found %d", nRem)
+	}
+	for _, v := range returnedValuesU(pop, 0) {
+		if isNilConst(v) {
+			continue
+		}
+		okV := false
+		if x, ok := assertedFrom(v); ok {
+			if cl, ok := origin(x).(*ssa.Call); ok && callName(cl) == L+"Remove" && onQueue(cl) && frontOf(cl.Call.Args[1]) {
+				okV = true
+			}
+			if fr, ok := asFieldLoad(x); ok && fr.SName == "container/list.Element" && fr.Field == "Value" && frontOf(fr.Base) {
+				okV = true
+			}
+		}
+		o.Site(v.Pos(), "pop returns %s", v.String())
+		if !okV {
+			o.Fail(v.Pos(), "pop does not return the oldest element")
+		}
+	}
+}
+
+// assertedFrom: v is x.(T), in the plain or the comma-ok form (first result); returns x.
+func assertedFrom(v ssa.Value) (ssa.Value, bool) {
+	v = origin(v)
+	if ta, ok := v.(*ssa.TypeAssert); ok {
+		return ta.X, true
+	}
+	if ex, ok := v.(*ssa.Extract); ok && ex.Index == 0 {
+		if ta, ok := ex.Tuple.(*ssa.TypeAssert); ok {
+			return ta.X, true
+		}
+	}
+	return nil, false
 }
